@@ -4,6 +4,7 @@ import (
 	"bytes"
 	"encoding/json"
 	"fmt"
+	"strings"
 	"unicode/utf8"
 
 	"github.com/willabides/rjson"
@@ -33,7 +34,7 @@ func (c15) Assumptions() []string {
 	return []string{"self-differential: a fresh ValueReader running the same code is the reference", "documents and pool schedules are sampled"}
 }
 func (c15) Required(tier string) []string {
-	return []string{"P-miss", "P-pick", "P-evict", "X-mutate-result", "A-abort", "pool-hit-with-stale-size-hint", "pool-hit-with-used-scratch", "pool-hit-with-retained-slice", "read-after-failed-read", "read-after-depth-limit-exit", "read-after-10x-larger-document", "snapshots-rechecked", "input-in-reused-arena", "top-level-string"}
+	return []string{"P-miss", "P-pick", "P-evict", "X-mutate-result", "A-abort", "pool-hit-with-stale-size-hint", "pool-hit-with-used-scratch", "pool-hit-with-retained-slice", "read-after-failed-read", "read-after-depth-limit-exit", "read-after-10x-larger-document", "snapshots-rechecked", "input-in-reused-arena", "top-level-string", "next-message-same-address-same-length-other-content"}
 }
 
 var vrOps = []string{"VR.ReadValue", "VR.ReadObject", "VR.ReadArray"}
@@ -147,6 +148,26 @@ func genVRHistory(r *Rand, sc *Scenario, withMutations bool) {
 		}
 		ops = append(ops, op)
 		reads++
+		if sc.Docs[op.Doc].Len() < 5000 && r.Chance(1, 6) {
+			// the caller's read buffer receives the next message: same address, same length, same
+			// structure, other key / string bytes (1-3 successors in a row)
+			cur := sc.Docs[op.Doc].Bytes()
+			for k := r.Range(1, 3); k > 0; k-- {
+				nb, ok := succDoc(r, cur)
+				if !ok {
+					break
+				}
+				ops[len(ops)-1].B |= 2
+				sc.Docs = append(sc.Docs, docOf(nb, sc.Docs[op.Doc].Class+"-successor"))
+				op2 := Op{Kind: op.Kind, Doc: len(sc.Docs) - 1, B: 2, Tape: op.Tape}
+				if r.Chance(1, 4) {
+					op2.Kind = vrOps[r.Intn(3)]
+				}
+				ops = append(ops, op2)
+				reads++
+				cur = nb
+			}
+		}
 	}
 	sc.Tasks = [][]Op{ops}
 }
@@ -270,6 +291,9 @@ func (c15) Exec(sc *Scenario, st *Stats) *Violation {
 			if op.B&2 != 0 {
 				dataA = arena[:copy(arena, dataA)]
 				st.probe("input-in-reused-arena")
+				if strings.HasSuffix(d.Class, "-successor") {
+					st.probe("next-message-same-address-same-length-other-content")
+				}
 			}
 			if d.Class == "top-level-string" {
 				st.probe("top-level-string")
@@ -388,7 +412,7 @@ func (c03) Assumptions() []string {
 	return []string{"reduced scope: what is decided is independence of the result from pool scheduling and reader reuse, plus agreement with the model on sampled documents; exhaustiveness over byte strings is not claimed", "reference parser cross-checked against encoding/json per document"}
 }
 func (c03) Required(tier string) []string {
-	return []string{"P-miss", "P-pick", "P-evict", "duplicate-key", "escaped-key", "empty-container", "typed-entry-rejects-null", "typed-entry-rejects-other-root", "number-out-of-range-rejected", "depth-10000-accepted", "depth-10001-rejected", "invalid-utf8-kept", "model-vs-encoding-json-tree-checked"}
+	return []string{"P-miss", "P-pick", "P-evict", "duplicate-key", "escaped-key", "empty-container", "typed-entry-rejects-null", "typed-entry-rejects-other-root", "number-out-of-range-rejected", "depth-10000-accepted", "depth-10001-rejected", "invalid-utf8-kept", "model-vs-encoding-json-tree-checked", "input-in-reused-arena", "next-message-same-address-same-length-other-content"}
 }
 
 func (c03) Gen(r *Rand, sc *Scenario, tier string) {
@@ -509,6 +533,13 @@ func (c03) Exec(sc *Scenario, st *Stats) *Violation {
 	defer uninstallPool()
 	reader := &rjson.ValueReader{}
 	reads := 0
+	maxLen := 0
+	for _, d := range sc.Docs {
+		if d.Len() > maxLen {
+			maxLen = d.Len()
+		}
+	}
+	arena := make([]byte, maxLen) // a read buffer the caller reuses: same address for every call that asks for it
 	for oi, op := range sc.Tasks[0] {
 		if op.Kind == "evict-pool" {
 			pool.evictAll()
@@ -521,6 +552,13 @@ func (c03) Exec(sc *Scenario, st *Stats) *Violation {
 		}
 		d := sc.Docs[op.Doc]
 		data := d.Bytes()
+		if op.B&2 != 0 && len(d.Tail) == 0 {
+			data = arena[:copy(arena, data)]
+			st.probe("input-in-reused-arena")
+			if strings.HasSuffix(d.Class, "-successor") {
+				st.probe("next-message-same-address-same-length-other-content")
+			}
+		}
 		if len(data) <= 1<<16 {
 			selfCheckDoc(data)
 		}
